@@ -98,7 +98,8 @@ def run(ctx):
     fonts = apihist.font_paths()
     lines = []
     for _ in range(500 if q else 20000):
-        fi = r.randrange(len(apihist.FONTS) - (2 if q else 0))
+        # (the two collision fonts are slow: the quick tier gives them one history in twelve)
+        fi = r.randrange(len(apihist.FONTS) - (2 if q else 0)) if not q or r.random() > 0.08 else len(apihist.FONTS) - 1 - r.randrange(2)
         name, fdir, texts = apihist.FONTS[fi]
         opts = r.choice([0, 0, 2, 4, 6])
         src = r.choice(["f", "c"])
